@@ -1253,7 +1253,7 @@ def c18(ctx):
     trip = cli_print_triples(ctx, libcases)
     ctx.count("library_on_generated_files", len(trip))
     api_vs_cli(ctx, trip, "C18 (without the flag the markers have no effect: the library API)")
-    optsets = [["sg"], ["sg", "print"], ["sg", "diff"], ["print"], [], ["sg", "v"]]
+    optsets = [["sg"], ["sg", "print"], ["sg", "diff"], ["print"], [], ["sg", "v"], ["sg", "si"], ["sg", "si", "print"], ["sg", "si", "diff", "v"]]
     ctx.extra["exhaustive"] = True
     ctx.extra["header_shapes"] = [h[0] for h in headers]
     def one(sc):
@@ -1288,7 +1288,8 @@ def c18(ctx):
                 rel = gi["provided"]
                 touched = obs["before"].get(rel) != obs["after"].get(rel)
                 so = obs["stdout"].decode("utf-8", "replace")
-                shown = (rel in so) if "diff" in opts else ("zzz_unmatched_token" in so and "/u_" in rel)
+                # (with -v the log line "generated file <path>: skipped" names the file: only a diff header counts)
+                shown = (("--- " + rel) in so) if "diff" in opts else ("zzz_unmatched_token" in so and "/u_" in rel)
                 if sc.expect and (touched or shown or any(l.startswith(rel + ":") for l in obs["stderr"].split("\n"))):
                     found.append(f"{rel}: generated file was processed under --skip-generated" + (" (its contents are printed)" if shown else ""))
                 if sc.expect != gi["generated"]:
@@ -2012,6 +2013,34 @@ def c16(ctx):
         return out
     scen += corpus_scenarios("C16")
     run_scenarios(ctx, scen, [[], ["print"], ["diff"]], {"write", "stdout", "exit", "report", "unmatched"}, post)
+    # a rewrite whose result is not valid Go (known from the table, not from the binary) is a failure under every combination of
+    # flags: reported with the file's name, non-zero exit, nothing written or printed for that file
+    for mi, (mp, ms) in enumerate([MISFIT[k] for k in (0, 3, 6, 8)]):     # those whose result go/parser rejects (a type name's literal in a header)
+        for flags in ([], ["--skip-import-processing"], ["--skip-import-processing", "--print-only"], ["--skip-import-processing", "--diff"],
+                      ["--print-only", "-v"], ["--diff", "--skip-generated"], ["--skip-import-processing", "--skip-generated", "-v"]):
+            root = ctx.scratch("misfitflags")
+            good = "package a\n\nfunc ok() {\n\tz := foo(7)\n\t_ = z\n}\n"
+            cl.write_tree(root, {"bad.go": ms, "good.go": good, "p.patch": mp})
+            before = open(os.path.join(root, "bad.go")).read()
+            code, out, err = cl.gopatch(ctx.gopatch, root, ["-p", "p.patch"] + flags + ["bad.go", "good.go"])
+            e, so = err.decode("utf-8", "replace"), out.decode("utf-8", "replace")
+            ctx.evaluations += 1
+            ctx.count("misfit_under_flags")
+            ctx.nontrivial.add(f"misfitflags:{mi}:{' '.join(flags)}")
+            probs = []
+            if code == 0:
+                probs.append("exit status 0")
+            if "bad.go" not in e:
+                probs.append("stderr does not name bad.go")
+            if open(os.path.join(root, "bad.go")).read() != before:
+                probs.append("bad.go was rewritten")
+            if "--diff" in flags and "--- bad.go" in so:
+                probs.append("a diff was printed for bad.go")
+            if probs:
+                ctx.violation(f"gopatch {' '.join(flags)} on a rewrite whose result is not valid Go: " + "; ".join(probs),
+                              {"fault": "misfit-flags", "input": {"patches": [mp], "files": {"bad.go": ms, "good.go": good}, "flags": flags},
+                               "stderr": e[-400:]})
+            shutil.rmtree(root, ignore_errors=True)
     library_reuse_family(ctx, "C16: a failure is reported by the call it belongs to, and by no other")
     # the library: a program that computes the results for several files with one parsed patch and writes them afterwards must
     # not end up with a file made of two results (no error would tell it)
@@ -2627,7 +2656,11 @@ def c19(ctx):
             with open(os.path.join(root, "list.txt"), "w") as f:
                 f.write("ok.patch\np.patch\n")
             before2 = cl.digest(root)
-            for args in (["-p", "ok.patch", "-p", "p.patch", "."], ["-P", "list.txt", "."]):
+            with open(os.path.join(root, "oklist.txt"), "w") as f:
+                f.write("ok.patch\n")
+            before2 = cl.digest(root)
+            for args in (["-p", "ok.patch", "-p", "p.patch", "."], ["-P", "list.txt", "."], ["-p", "p.patch", "-P", "oklist.txt", "."],
+                         ["-P", "oklist.txt", "-p", "p.patch", "."], ["-p", "p.patch", "-p", "ok.patch", "-P", "oklist.txt", "--print-only", "."]):
                 code, out, err = cl.gopatch(ctx.gopatch, root, args)
                 e = err.decode("utf-8", "replace")
                 ctx.evaluations += 1
